@@ -381,9 +381,9 @@ func c19Derived(r *core.Run, idx int, rng *rand.Rand) {
 				continue
 			}
 			host := strings.TrimSuffix(strings.TrimPrefix(mv.EntityID, scheme), strings.TrimSuffix(wantPath, "/")+"/metadata")
-			ok := host == reqHost
+			ok := strings.EqualFold(host, reqHost) // how the letters of the host are cased is not judged
 			for _, v := range allValues {
-				if host != "" && strings.Contains(v, host) {
+				if host != "" && strings.Contains(strings.ToLower(v), strings.ToLower(host)) {
 					ok = true
 				}
 			}
